@@ -834,6 +834,155 @@ def run(chk, replay=None):
                     cache_pair(etxt, kwa, kwb, 'cache-stage')
                     cache_pair(etxt, kwb, kwa, 'cache-stage')
 
+    # ---- undefined-transform stage: products F(s)*V(s) with an undefined V (product_undef1): the derivative route
+    # (s**n * V), the integration route (V/s) and the convolution route (rational F), judged by putting a CONCRETE signal
+    # g(t) = t^k e^{-a t}/k! in place of v(t) in Lcapy's answer, evaluating the integrals / derivatives with SymPy and
+    # transforming forward with the Lean spec `L`: must equal F(s) * G(s), G(s) = 1/(s+a)^(k+1).
+    vfun = S.Function('v')
+
+    def concretise(r, k, a):
+        ra = S.Rational(a.numerator, a.denominator)
+        e = r.replace(vfun, lambda x: x ** k * S.exp(-ra * x) / S.factorial(k))
+        return e.doit()
+
+    def undef_case(route, ftxt, B, A, n, const, origin='undef-stage', only=None):
+        """route: 'deriv' (F = const*s**n), 'integ' (F = const/s), 'conv' (F = const*B/A strictly proper), 'mixed' (oracle only)"""
+        etxt = '%s*V(s)' % ftxt if route != 'rawtext' else ftxt
+        try:
+            X = lexpr(etxt)
+        except Exception as ex:   # noqa
+            chk.count('degenerate', 'lcapy-parse:' + type(ex).__name__)
+            return
+        smp = Sampler(rng, S)
+        optsets = [{'causal': True, 'zero_initial_conditions': False}, {'zero_initial_conditions': False},
+                   {'causal': True, 'zero_initial_conditions': True}]
+        if only is not None:
+            optsets = [only]
+        qd = None
+        if route == 'conv':
+            try:
+                qd = qrpo_tokens(lexpr(ftxt).sympy / const, None, 'sub')
+            except Exception:   # noqa
+                qd = None
+        for kw in optsets:
+            zic = kw['zero_initial_conditions']
+            causal = bool(kw.get('causal', False))
+            try:
+                res = X.inverse_laplace(**kw).sympy
+            except Exception as ex:   # noqa
+                chk.count('degenerate', 'lcapy-error:' + type(ex).__name__)
+                continue
+            uppers = set()
+            for ig in res.atoms(S.Integral):
+                up = ig.limits[0][2]
+                uppers.add('inf' if up == S.oo else ('t' if up == tsym else 'other'))
+            chk.count('undef-route', '%s:upper=%s' % (route, '/'.join(sorted(uppers)) or 'none'))
+            for k in ((3,) if zic else (0, 1)):
+                a = Fraction(rng.randint(1, 4), rng.choice([1, 2]))
+                gitem = 'ep 1 %d %s 0' % (k, fstr(-a))
+                ckey = ('undef', etxt, tuple(sorted((x, str(y)) for x, y in kw.items())), k, fstr(a))
+                try:
+                    e = concretise(res, k, a)
+                except Exception as ex:   # noqa
+                    chk.case(ckey, False)
+                    chk.count('degenerate', 'sympy-integration:' + type(ex).__name__)
+                    continue
+                cnv = Canon(S, tsym, smp)
+                cn = cnv.items(e) if not (e.has(S.oo) or e.has(S.nan) or e.has(S.zoo)) else None
+                Ag = list(A)
+                for _ in range(k + 1):
+                    Ag = poly_mul(Ag, [(a, Fraction(0)), (Fraction(1), Fraction(0))])
+                want = c09.parse_val(drv.ask1('rat.eval %s 0 ; %s ; %s' % (smp.env_tokens(), ' '.join(gq(c) for c in B), ' '.join(gq(c) for c in Ag))))
+                key = {'what': 'undef-product', 'route': route, 'causal': causal, 'zero_initial_conditions': zic,
+                       'upper_limit': '/'.join(sorted(uppers)) or 'none'}
+                rp = {'input': {'undef': {'route': route, 'F': ftxt, 'B': [gq(c) for c in B], 'A': [gq(c) for c in A], 'n': n, 'const': fstr(const),
+                                          'options': kw}, 'v(t)': 't^%d e^{-%s t}/%d!' % (k, a, k)},
+                      'lcapy': str(res)[:300], 'with_v': str(e)[:300],
+                      'spec': 'for every concrete v the returned expression has the transform F(s)*V(s) (theorems convolution_entry, '
+                              'deriv_entry, deriv_entry_zic)', 'origin': origin}
+                got = None
+                if cn is not None:
+                    got = c09.parse_val(drv.ask1('sig.L %s ; %s' % (smp.env_tokens(), ' '.join(cn[0]))))
+                chk.case(ckey, got is not None)
+                if want is None:
+                    chk.count('degenerate', 'sample-hits-pole')
+                    continue
+                bad = (cn is None and (e.has(S.oo) or e.has(S.zoo) or e.has(S.nan))) or (got is not None and got != want)
+                if cn is None and not bad:
+                    chk.count('degenerate', 'result-shape-not-canonicalised')
+                    if len(chk.coverage['correspondence']['diagnostics']) < 8:
+                        chk.coverage['correspondence']['diagnostics'].append('undef not canonicalised (%s): %s %s -> %s' % (getattr(cnv, 'why', '?'), etxt, kw, str(e)[:160]))
+                    continue
+                if bad and 'inf' in uppers:
+                    # finding C10-F23 (reported to the coordinator): upper limit oo with a kernel that is not cut off at tau = t
+                    if common.match_finding(chk.findings, key) is not None:
+                        chk.counterexample(key, rp, 'convolution integral with upper limit oo does not have the transform F(s)*V(s)')
+                    else:
+                        chk.count('pending-finding', 'C10-F23 convolution upper limit oo (non-causal): literal integral wrong')
+                elif bad:
+                    counterexamples[0] += 1
+                    rp['forward'] = None if got is None else [fstr(got[0]), fstr(got[1])]
+                    rp['input_value'] = [fstr(want[0]), fstr(want[1])]
+                    chk.counterexample(key, rp, 'inverse transform of a product with an undefined transform is wrong for a concrete v(t)')
+                else:
+                    chk.count('undef-oracle', route + ':ok')
+                # correspondence with the model
+                mv = None
+                mup = None
+                if route == 'deriv':
+                    r = c09.parse_val(drv.ask1('ilt.deriv %s %d %d ; %s' % (smp.env_tokens(), 1 if zic else 0, n, gitem)))
+                    mv = None if r is None else (r[0] * const, r[1] * const)
+                    mup = set()
+                elif route == 'integ':
+                    rr = drv.ask1('ilt.conv %s 1 ; ; 1 0 1 ; %s' % (smp.env_tokens(), gitem)).split(' ')
+                    r = c09.parse_val(rr[1]) if len(rr) == 2 else None
+                    mv = None if r is None else (r[0] * const, r[1] * const)
+                    mup = {'t'}          # `1/s * V(s)`: Integral(v(tau), (tau, 0, t)) whatever `causal`
+                elif route == 'conv' and qd is not None and qd['Q'] == '':
+                    rr = drv.ask1('ilt.conv %s %d ; ; %s ; %s' % (smp.env_tokens(), 1 if causal else 0, qd['RPO'], gitem)).split(' ')
+                    r = c09.parse_val(rr[1]) if len(rr) == 2 else None
+                    mv = None if r is None else (r[0] * const, r[1] * const)
+                    mup = {rr[0]}
+                if mup is not None:
+                    chk.coverage['correspondence']['compared'] += 1
+                    value_ok = True
+                    if mv is not None and got is not None and 'inf' not in mup and not (zic and k < n):
+                        value_ok = (mv == got)
+                    if mup != uppers or not value_ok:
+                        chk.coverage['correspondence']['disagreements'] += 1
+                        disagreements.append({'F': etxt, 'options': kw, 'what': 'undef-product ' + route, 'model_upper': sorted(mup), 'lcapy_upper': sorted(uppers),
+                                              'model': None if mv is None else [fstr(mv[0]), fstr(mv[1])], 'lcapy': None if got is None else [fstr(got[0]), fstr(got[1])],
+                                              'result': str(res)[:200]})
+
+    def undef_stage():
+        one = (Fraction(1), Fraction(0))
+        zero = (Fraction(0), Fraction(0))
+        for n in ((1, 2, 3) if quick else (1, 2, 3, 4)):
+            c = Fraction(rng.randint(1, 5))
+            undef_case('deriv', '%s*s**%d' % (c, n), [zero] * n + [(c, Fraction(0))], [one], n, c)
+        undef_case('integ', '3/s', [(Fraction(3), Fraction(0))], [zero, one], 0, Fraction(3))
+        kinds = ['real', 'repeated', 'origin-rep', 'real2'] if quick else ['real', 'repeated', 'origin-rep', 'real2', 'complex', 'mixed', 'origin'] * 3
+        for kd in kinds:
+            kind, poles = gen.pole_set()
+            guard = 0
+            while kind != kd and guard < 200:
+                kind, poles = gen.pole_set()
+                guard += 1
+            if kd == 'real':      # 1/s alone is the integration route
+                poles = [((Fraction(-rng.randint(1, 5), 1), Fraction(0)), 1)]
+            degA = sum(m for _, m in poles)
+            Bn = [gen.rcoef(nonzero=True)] + [gen.rcoef() for _ in range(rng.randint(0, degA - 1))]
+            if Bn[-1] == 0:
+                Bn[-1] = Fraction(1)
+            tm = gen.build('undef:' + kd, poles, B=Bn[:degA], lc=Fraction(1), T=Fraction(0))
+            undef_case('conv', tm['txt'], tm['B'], tm['A'], 0, Fraction(1))
+        # composite forms (oracle only): polynomial and improper factors expand into derivative + convolution terms
+        undef_case('mixed', '(2*s + 1)', [one, (Fraction(2), Fraction(0))], [one], 1, Fraction(1))
+        undef_case('mixed', '((s + 3)/(s + 1))', [(Fraction(3), Fraction(0)), one], [one, one], 1, Fraction(1))
+        if not quick:
+            undef_case('mixed', '(s/(s + 2))', [zero, one], [(Fraction(2), Fraction(0)), one], 1, Fraction(1))
+            undef_case('mixed', '((s**2 + 1)/(s + 2))', [one, zero, one], [(Fraction(2), Fraction(0)), one], 2, Fraction(1))
+
     import time
     t0 = time.time()
     if replay:
@@ -858,6 +1007,7 @@ def run(chk, replay=None):
             one_input(terms, 0, forced_opts=inp.get('options'))
     if not replay:
         cache_stage()
+        undef_stage()
     # ---- directed stream 1: second-order sections with damped_sin=True (do_damped_sin: strictly proper with constant /
     # first-order numerator, biproper; every zero pattern of the numerator coefficients; under/over/critically damped,
     # undamped, pole at the origin -> the fall-back to the partial-fraction route), crossed with causal / damping / delay
